@@ -111,6 +111,10 @@ fn gen_member_name(rng: &mut Rng, collide_ok: bool) -> String {
         };
         parts.push(c);
     }
+    if !collide_ok && rng.chance(1, 3) {
+        // same base name under different directories (distinct normalised paths)
+        parts.push("same.txt".to_string());
+    }
     let mut s = parts.join("/");
     match rng.below(8) {
         0 => s = format!("/{s}"),
@@ -481,7 +485,14 @@ impl Prop for C17 {
         let mut chain: Vec<&'static str> = vec![];
         let steps = crng.range(0, 3);
         for step in 0..=steps {
-            let key_args: Vec<String> = if cur_enc { vec![s("-k"), privs[cur_key].clone()] } else { vec![] };
+            // the right key alone, or after a decoy key that is no recipient (every candidate must be tried)
+            let key_args: Vec<String> = if !cur_enc {
+                vec![]
+            } else if crng.chance(1, 2) {
+                vec![s("-k"), privs[3].clone(), s("-k"), privs[cur_key].clone()]
+            } else {
+                vec![s("-k"), privs[cur_key].clone()]
+            };
             let what = format!("archive {cur} after [{}]", chain.join(" "));
             // list
             let mut a = vec![s("list"), s("-i"), cur.clone()];
